@@ -27,4 +27,16 @@ CHECKS = {
         thorough=dict(tests=[dict(name="TestC11", cases=1600000), dict(name="TestC11CLI", cases=16000),
                              dict(name="TestSweepC11", cases=1, env=dict(VERIF_SWEEP=1))]),
     ),
+    "C04": dict(
+        level="exploration",
+        rule=("Inputs: journals built by a history generator (open/book/assert/close/settle/price/accrual actions on a forward clock, valid by construction) "
+              "followed by 0-2 drawn damages (drop/duplicate/extra open, extra booking, extra close, assertion off by epsilon, extra assertion incl. zero on "
+              "never-held commodities and non-A/L accounts, shift a directive by one day, drop a close) and optional shuffling of the file order and noisy layout. "
+              "Oracle: independent lifecycle model (statement of C04, exact rationals, own accrual expansion) vs exit status of knut check / print / balance; "
+              "rejected: stderr non-empty, stdout empty, and for single-damage cases stderr contains the date and account of the first offending directive. "
+              "Non-trivial: the verdict involves same-day open/use/assert/close of one account, or exactly one damage led to rejection; distinct by journal text."),
+        assumptions=["within one file, arrival order is file order", "accrual split rule as documented (x/n truncated at one decimal, remainder first)"],
+        quick=dict(tests=[dict(name="TestC04", cases=16000)]),
+        thorough=dict(tests=[dict(name="TestC04", cases=320000)]),
+    ),
 }
